@@ -57,3 +57,39 @@ void harness(void) {
 	if (res != KSI_OK) REACH("failure");
 }
 #endif
+
+#ifdef H_wrappers
+/* C20 (lead): the public wrappers KSI_UriClient_setExtender / KSI_UriClient_setAggregator hand uriClient_setService the transport
+ * setters OF THEIR OWN SERVICE and that service's client slot (seed C20-4: the extender wrapper bound the TCP AGGREGATOR setter - every
+ * setter still returns OK, the extender's host / credentials land in the aggregator endpoint).  Plain mode, real uriClient_setService
+ * underneath (its own contract: C20.setService); the six transport setters are recording stubs with arbitrary result. */
+static unsigned w_calls[6];      /* 0..2: http / tcp / file EXTENDER setter, 3..5: http / tcp / file AGGREGATOR setter */
+#define W_STUB(NAME, IDX, ...) int NAME(KSI_NetworkClient *client, __VA_ARGS__) { w_calls[IDX]++; return nondet_bool() ? KSI_OK : KSI_INVALID_ARGUMENT; }
+W_STUB(KSI_HttpClient_setExtender, 0, const char *url, const char *user, const char *pass)
+W_STUB(KSI_TcpClient_setExtender, 1, const char *host, unsigned port, const char *user, const char *pass)
+W_STUB(KSI_FsClient_setExtender, 2, const char *path, const char *user, const char *pass)
+W_STUB(KSI_HttpClient_setAggregator, 3, const char *url, const char *user, const char *pass)
+W_STUB(KSI_TcpClient_setAggregator, 4, const char *host, unsigned port, const char *user, const char *pass)
+W_STUB(KSI_FsClient_setAggregator, 5, const char *path, const char *user, const char *pass)
+void harness(void) {
+	static const char uri[] = "u", login[] = "l", key[] = "k"; int res; _Bool ext = nondet_bool();
+	KSI_NetworkClient *a0, *e0;
+	memset(&h_client, 0, sizeof(h_client));
+	h_client.ctx = &h_ctx; h_client.impl = &h_uri;
+	h_client.uriSplit = us_split; h_client.uriCompose = us_compose; h_client.getClientByUriScheme = us_class;
+	h_uri.httpClient = &h_http; h_uri.tcpClient = nondet_bool() ? &h_tcp : NULL; h_uri.fsClient = nondet_bool() ? &h_fs : NULL;
+	h_uri.pAggregationClient = a0 = nondet_bool() ? &h_http : NULL; h_uri.pExtendClient = e0 = nondet_bool() ? &h_tcp : NULL;
+	g_us_uri = uri; g_us_login = nondet_bool() ? login : NULL; g_us_key = nondet_bool() ? key : NULL;
+	res = ext ? KSI_UriClient_setExtender(&h_client, uri, g_us_login, g_us_key) : KSI_UriClient_setAggregator(&h_client, uri, g_us_login, g_us_key);
+	__CPROVER_assert(ext ? (w_calls[3] + w_calls[4] + w_calls[5] == 0) : (w_calls[0] + w_calls[1] + w_calls[2] == 0), "wrapper: only the transport setters of ITS OWN service are used (extender URI never configures an aggregator endpoint and vice versa)");
+	__CPROVER_assert(w_calls[0] + w_calls[1] + w_calls[2] + w_calls[3] + w_calls[4] + w_calls[5] <= 1, "wrapper: at most one transport is configured");
+	__CPROVER_assert(ext ? h_uri.pAggregationClient == a0 : h_uri.pExtendClient == e0, "wrapper: the OTHER service's client selection is untouched");
+	__CPROVER_assert(IMPLIES(res == KSI_OK, ext ? (h_uri.pExtendClient != NULL && w_calls[0] + w_calls[1] + w_calls[2] == 1) : (h_uri.pAggregationClient != NULL && w_calls[3] + w_calls[4] + w_calls[5] == 1)), "wrapper ok: its own service's client is selected and exactly its setter ran");
+	if (res == KSI_OK && ext && w_calls[1] == 1) REACH("extender over TCP");
+	if (res == KSI_OK && !ext && w_calls[4] == 1) REACH("aggregator over TCP");
+	if (res == KSI_OK && ext && w_calls[0] == 1) REACH("extender over HTTP");
+	if (res == KSI_OK && !ext && w_calls[5] == 1) REACH("aggregator over file");
+	if (res != KSI_OK) REACH("failure");
+	__CPROVER_assert(KSI_UriClient_setExtender(NULL, uri, login, key) == KSI_INVALID_ARGUMENT && KSI_UriClient_setAggregator(&h_client, NULL, login, key) == KSI_INVALID_ARGUMENT, "wrapper: missing client / URI refused");
+}
+#endif
